@@ -44,17 +44,18 @@ var verifDir = func() string {
 var buildDir = filepath.Join(verifDir, "build")
 
 type propDef struct {
-	ID        string
-	Pkg       string // repo-relative package dir whose test binary hosts the harness
-	Level     string
-	Quick     int // runs
-	Thorough  int
-	QuickWall time.Duration
-	ThorWall  time.Duration
-	Rule      string
-	Real      []string
-	Stub      []string
-	Assume    []string
+	ID         string
+	Pkg        string // repo-relative package dir whose test binary hosts the harness
+	Level      string
+	Quick      int // runs
+	Thorough   int
+	QuickWall  time.Duration
+	ThorWall   time.Duration
+	Rule       string
+	Real       []string
+	Stub       []string
+	Assume     []string
+	MemLimitKB int // address-space limit of each worker process (0 = none)
 }
 
 var props = map[string]*propDef{}
@@ -307,6 +308,8 @@ type WorkerResult struct {
 	Violations  []*Violation     `json:"violations"`
 	ReplayMatch *bool            `json:"replay_match,omitempty"`
 	Note        string           `json:"note,omitempty"`
+	Partial     bool             `json:"partial,omitempty"`
+	NextIndex   int              `json:"next_index,omitempty"`
 }
 
 type knownFinding struct {
@@ -344,6 +347,64 @@ func seedFromEnv() uint64 {
 	return 20261003
 }
 
+// crashSignature extracts a stable description of why a worker process died.
+func crashSignature(log string) string {
+	for _, line := range strings.Split(log, "\n") {
+		l := strings.TrimSpace(line)
+		for _, p := range []string{"fatal error:", "panic:", "runtime: out of memory", "signal:"} {
+			if strings.HasPrefix(l, p) {
+				if strings.Contains(l, "out of memory") {
+					// name the repository function that asked for the memory
+					site := ""
+					for _, fl := range strings.Split(log, "\n") {
+						if i := strings.Index(fl, "sheerbytes/internal/"); i >= 0 && !strings.Contains(fl, "verifsim") && !strings.HasPrefix(fl, "\t") {
+							site = fl[i+len("sheerbytes/internal/"):]
+							if j := strings.IndexByte(site, '('); j > 0 {
+								if k := strings.LastIndexByte(site, '('); k > 0 {
+									site = site[:k]
+								}
+							}
+							break
+						}
+					}
+					return "fatal error: out of memory @" + site
+				}
+				if len(l) > 90 {
+					l = l[:90]
+				}
+				return l
+			}
+		}
+	}
+	return "worker process died without a Go fatal message (killed?)"
+}
+
+func mergeResult(dst, src *WorkerResult) {
+	if dst.Counters == nil {
+		dst.Counters = map[string]int64{}
+	}
+	dst.Runs += src.Runs
+	dst.Skipped += src.Skipped
+	dst.Steps += src.Steps
+	dst.SimTimeNs += src.SimTimeNs
+	dst.QStates += src.QStates
+	dst.Nontrivial += src.Nontrivial
+	for k, v := range src.Counters {
+		dst.Counters[k] += v
+	}
+	dst.Hashes = append(dst.Hashes, src.Hashes...)
+	if len(dst.Samples) < 3 {
+		dst.Samples = append(dst.Samples, src.Samples...)
+	}
+	dst.Violations = append(dst.Violations, src.Violations...)
+	if src.Note != "" {
+		dst.Note += src.Note + " "
+	}
+	if src.ReplayMatch != nil {
+		dst.ReplayMatch = src.ReplayMatch
+	}
+}
+
 func runWorkers(bin string, p *propDef, mode, tier string, seed uint64, runs int, maxWall time.Duration, workers int, replay string, extraEnv []string) ([]*WorkerResult, error) {
 	rdir := filepath.Join(buildDir, "run", fmt.Sprintf("%s-%08x", p.ID, uint32(os.Getpid())*2654435761+uint32(time.Now().UnixNano()))) // fixed length: paths travel inside simulated messages
 	os.RemoveAll(rdir)
@@ -357,44 +418,94 @@ func runWorkers(bin string, p *propDef, mode, tier string, seed uint64, runs int
 		wg.Add(1)
 		go func() {
 			defer wg.Done()
-			out := filepath.Join(rdir, fmt.Sprintf("w%d.json", w))
+			total := &WorkerResult{Property: p.ID, Worker: w, Counters: map[string]int64{}}
+			results[w] = total
+			startIdx := 0
 			scratch := filepath.Join(rdir, fmt.Sprintf("scratch%02d", w))
-			os.MkdirAll(scratch, 0o755)
-			hard := maxWall + 10*time.Minute
-			cmd := exec.Command(bin, "-test.run", "^TestVerif$", "-test.timeout", hard.String(), "-test.count", "1")
-			cmd.Dir = scratch
-			cmd.Env = append(os.Environ(),
-				"VERIF_PROP="+p.ID, "VERIF_MODE="+mode, "VERIF_TIER="+tier,
-				"VERIF_SEED="+strconv.FormatUint(seed, 10), "VERIF_WORKER="+strconv.Itoa(w), "VERIF_WORKERS="+strconv.Itoa(workers),
-				"VERIF_RUNS="+strconv.Itoa(runs), "VERIF_MAXWALL_MS="+strconv.FormatInt(maxWall.Milliseconds(), 10),
-				"VERIF_OUT="+out, "VERIF_REPLAY="+replay, "VERIF_SCRATCH="+scratch, "TMPDIR="+scratch, "GOGC=200")
-			cmd.Env = append(cmd.Env, extraEnv...)
-			logf, _ := os.Create(filepath.Join(rdir, fmt.Sprintf("w%d.log", w)))
-			cmd.Stdout, cmd.Stderr = logf, logf
-			err := cmd.Run()
-			logf.Close()
-			b, rerr := os.ReadFile(out)
-			if rerr != nil {
-				lg, _ := os.ReadFile(filepath.Join(rdir, fmt.Sprintf("w%d.log", w)))
-				if len(lg) > 6000 {
-					lg = lg[len(lg)-6000:]
+			for attempt := 0; attempt < 25; attempt++ {
+				out := filepath.Join(rdir, fmt.Sprintf("w%d.%d.json", w, attempt))
+				logPath := filepath.Join(rdir, fmt.Sprintf("w%d.%d.log", w, attempt))
+				os.RemoveAll(scratch)
+				os.MkdirAll(scratch, 0o755)
+				hard := maxWall + 10*time.Minute
+				args := []string{"-test.run", "^TestVerif$", "-test.timeout", hard.String(), "-test.count", "1"}
+				var cmd *exec.Cmd
+				if p.MemLimitKB > 0 {
+					cmd = exec.Command("bash", append([]string{"-c", fmt.Sprintf("ulimit -v %d; exec \"$0\" \"$@\"", p.MemLimitKB), bin}, args...)...)
+				} else {
+					cmd = exec.Command(bin, args...)
 				}
-				errs[w] = fmt.Errorf("worker %d produced no result (%v):\n%s", w, err, lg)
-				return
-			}
-			var r WorkerResult
-			if jerr := json.Unmarshal(b, &r); jerr != nil {
-				errs[w] = fmt.Errorf("worker %d: bad result: %v", w, jerr)
-				return
-			}
-			if err != nil {
-				lg, _ := os.ReadFile(filepath.Join(rdir, fmt.Sprintf("w%d.log", w)))
-				if len(lg) > 4000 {
-					lg = lg[len(lg)-4000:]
+				cmd.Dir = scratch
+				cmd.Env = append(os.Environ(),
+					"VERIF_PROP="+p.ID, "VERIF_MODE="+mode, "VERIF_TIER="+tier,
+					"VERIF_SEED="+strconv.FormatUint(seed, 10), "VERIF_WORKER="+strconv.Itoa(w), "VERIF_WORKERS="+strconv.Itoa(workers),
+					"VERIF_RUNS="+strconv.Itoa(runs), "VERIF_MAXWALL_MS="+strconv.FormatInt(maxWall.Milliseconds(), 10),
+					"VERIF_OUT="+out, "VERIF_REPLAY="+replay, "VERIF_SCRATCH="+scratch, "TMPDIR="+scratch, "GOGC=200",
+					"VERIF_START="+strconv.Itoa(startIdx))
+				cmd.Env = append(cmd.Env, extraEnv...)
+				logf, _ := os.Create(logPath)
+				cmd.Stdout, cmd.Stderr = logf, logf
+				runErr := cmd.Run()
+				logf.Close()
+				lgb, _ := os.ReadFile(logPath)
+				lg := string(lgb)
+				var r WorkerResult
+				haveResult := false
+				if b, rerr := os.ReadFile(out); rerr == nil && json.Unmarshal(b, &r) == nil {
+					haveResult = true
 				}
-				errs[w] = fmt.Errorf("worker %d failed (%v): %s\n%s", w, err, r.Note, lg)
+				if runErr == nil && haveResult && !r.Partial {
+					mergeResult(total, &r)
+					return
+				}
+				tail := lg
+				if len(tail) > 5000 {
+					tail = tail[len(tail)-5000:]
+				}
+				if strings.Contains(lg, "VERIF-WATCHDOG") || strings.Contains(lg, "NONDETERMINISTIC") || strings.Contains(r.Note, "NONDETERMINISTIC") {
+					errs[w] = fmt.Errorf("worker %d: infrastructure failure (%v): %s\n%s", w, runErr, r.Note, tail)
+					return
+				}
+				// the worker process died: attribute it to the run named in the crumb
+				var crumb struct {
+					Idx  int             `json:"idx"`
+					Spec json.RawMessage `json:"spec"`
+				}
+				cb, cerr := os.ReadFile(out + ".crumb")
+				if mode == "replay" {
+					sig := crashSignature(lg)
+					t := true
+					total.ReplayMatch = &t
+					total.Runs++
+					total.Violations = append(total.Violations, &Violation{Property: p.ID, Class: "process-crash", Signature: sig, Detail: tail, LogHash: "crash"})
+					return
+				}
+				if cerr != nil || json.Unmarshal(cb, &crumb) != nil || len(crumb.Spec) == 0 {
+					errs[w] = fmt.Errorf("worker %d died and left no record of the run in progress (%v):\n%s", w, runErr, tail)
+					return
+				}
+				if haveResult {
+					mergeResult(total, &r)
+				}
+				sig := crashSignature(lg)
+				first := strings.Index(lg, sig)
+				detail := tail
+				if first >= 0 {
+					end := first + 3000
+					if end > len(lg) {
+						end = len(lg)
+					}
+					detail = lg[first:end]
+				}
+				total.Runs++
+				total.Violations = append(total.Violations, &Violation{Property: p.ID, Class: "process-crash", Signature: sig, Detail: "the worker process running this simulation died: " + detail, Spec: crumb.Spec, LogHash: "crash", Count: 1, RunIndex: crumb.Idx})
+				if total.Counters == nil {
+					total.Counters = map[string]int64{}
+				}
+				total.Counters["worker_process_crashes"]++
+				startIdx = crumb.Idx + 1
 			}
-			results[w] = &r
+			errs[w] = fmt.Errorf("worker %d: more than 25 process crashes", w)
 		}()
 	}
 	wg.Wait()
@@ -540,6 +651,9 @@ func cmdCheck(id, tier string) int {
 		// confirm in a fresh process
 		rr, rerr := runWorkers(bin, p, "replay", tier, seed, 1, 5*time.Minute, 1, path, nil)
 		stable := rerr == nil && rr[0] != nil && rr[0].ReplayMatch != nil && *rr[0].ReplayMatch
+		if stable && v.Class == "process-crash" {
+			stable = len(rr[0].Violations) > 0 && rr[0].Violations[0].Signature == v.Signature
+		}
 		fmt.Printf("VIOLATION property=%s replay=%s\n", id, path)
 		fmt.Printf("  class=%s signature=%s runs=%d steps=%d fresh-process-replay=%v\n  %s\n", v.Class, v.Signature, v.Count, v.Steps, stable, truncate(v.Detail, 600))
 		exit = 1
